@@ -242,6 +242,37 @@ theorem policy_sees_same (want : Status) (t : Table) (q : Prefix) (localAS : Nat
       want = (validate t q localAS segs).status) ∧ condEval want none = false := by
   simp [condEval]
 
+/-- **… for the route as it is when the condition is evaluated.**  In a chain of statements
+    (all policies of one ApplyPolicy call) a statement with an rpki condition `w` matches exactly
+    when `w` is the status `validate` gives the AS_PATH as the earlier matching statements have
+    left it; the rest of the chain runs on the AS_PATH this statement leaves. -/
+theorem chain_condition_sees_current_route (t : Table) (q : Prefix) (localAS : Nat) (confed : Bool)
+    (segs : List Seg) (s : Stmt) (rest : List Stmt) (w : Status) (hc : s.cond = some w) :
+    chainEval t q localAS confed segs (s :: rest) =
+      if w = (validate t q localAS segs).status then
+        (if s.disp ≠ 0 then ([true], s.modify confed segs, s.disp)
+         else (true :: (chainEval t q localAS confed (s.modify confed segs) rest).1,
+               (chainEval t q localAS confed (s.modify confed segs) rest).2))
+      else (false :: (chainEval t q localAS confed segs rest).1,
+            (chainEval t q localAS confed segs rest).2) := by
+  simp only [chainEval, Stmt.hit, hc, condEval, decide_eq_true_eq]
+
+/-- what makes the difference: prepending to an empty AS_PATH (non-confederation peer) moves the
+    origin from the local AS to the prepended AS … -/
+theorem origin_after_prepend_empty (localAS asn rep : Nat) :
+    originAS localAS (prependAsn [] asn (rep + 1) false) = some asn := by
+  have h : ∀ n, (List.replicate n asn).getLast?.getD asn = asn := by
+    intro n
+    induction n with
+    | zero => rfl
+    | succ n ih => simp [List.replicate_succ, List.getLast?_cons, ih]
+  simp [prependAsn, originAS, List.replicate_succ, List.getLast?_cons, h]
+
+/-- … so a later condition may flip: the chain of the seeded defect, on the model -/
+example : chainEval [(⟨4, 24, 657920⟩, [⟨24, 65100, 0⟩])] ⟨4, 24, 657920⟩ 65500 false []
+    [⟨some .invalid, 1, 65100, 1, 0⟩, ⟨some .valid, 0, 0, 0, 1⟩, ⟨none, 0, 0, 0, 2⟩] =
+    ([true, true], [⟨2, [65100]⟩], 1) := by decide
+
 /-! ## The table is the set of announced-and-not-withdrawn records -/
 
 /-- **Add / Delete / DeleteAll are set operations** on the records of a well-formed table
